@@ -757,7 +757,9 @@ def extra(rng, tier):
                 bad.append({"line": line, "out": real, "why": "output through the real thread pool differs from the "
                                                                "inlined run: %s" % impl(line)[:100]})
     hist, nh = _rewritten_file_histories()
-    return {"violations": bad + hist, "threadpool_ops": n, "rewritten_file_histories": nh}
+    reuse, nr = _reused_response_sequences()
+    return {"violations": bad + hist + reuse, "threadpool_ops": n, "rewritten_file_histories": nh,
+            "reused_response_requests": nr}
 
 
 def _rewritten_file_histories():
@@ -804,8 +806,64 @@ def _rewritten_file_histories():
     return out, n
 
 
-def _plain_request(iface, path, method, range_, if_range):
-    """(status, {lower-case header: value}, body) of a fresh FileResponse(path) that stats the file itself"""
+def _reused_response_sequences():
+    """a FileResponse object is an application and may answer many requests: each answer must be the one a fresh object
+    gives to the same request (nothing of an earlier answer - a multipart content type, a boundary, a length - stays)"""
+    import tempfile as _tf
+    out, n = [], 0
+    d = _tf.mkdtemp(prefix="verif-c02r-")
+    try:
+        path = os.path.join(d, "reuse.bin")
+        with open(path, "wb") as f:
+            f.write(bytes(range(200)))
+        seqs = [[("GET", "bytes=0-1,10-11"), ("GET", "bytes=5-9"), ("GET", None), ("HEAD", None), ("HEAD", "bytes=5-9")],
+                [("GET", "bytes=5-9"), ("GET", "bytes=0-1,10-11,50-"), ("GET", "bytes=-1"), ("GET", "bytes=500-"), ("GET", None)],
+                [("HEAD", "bytes=0-0,2-2"), ("GET", "bytes=3-"), ("GET", "bytes=a-b"), ("GET", "bytes=0-0,2-2"), ("GET", "bytes=1-1")]]
+        for iface in ("wsgi", "asgi"):
+            mod = wsgi_responses if iface == "wsgi" else asgi_responses
+            for si, seq in enumerate(seqs):
+                shared = mod.FileResponse(path)
+                for step, (method, rng_) in enumerate(seq):
+                    n += 1
+                    def strip(res):
+                        st, hd, body = res
+                        hd = dict(hd)
+                        ct = hd.get("content-type", "")
+                        if ct.startswith("multipart/byteranges; boundary="):
+                            b = ct.split("boundary=", 1)[1]
+                            hd["content-type"] = "multipart/byteranges; boundary=<B>"
+                            body = body.replace(b.encode("latin-1"), b"<B>")
+                        return st, sorted(hd.items()), body
+                    try:
+                        got = strip(_plain_request(iface, path, method, rng_, None, resp=shared))
+                        want = strip(_plain_request(iface, path, method, rng_, None))
+                    except Exception as exc:  # noqa
+                        out.append({"line": "reuse %s seq=%d step=%d" % (iface, si, step), "out": exc_name(exc),
+                                    "why": "a reused FileResponse raised %s" % exc_name(exc)})
+                        break
+                    if got != want:
+                        out.append({"line": "reuse %s seq=%d step=%d %s %s" % (iface, si, step, method, rng_),
+                                    "out": repr(got)[:300],
+                                    "why": "request %d (%s, Range %r) on a FileResponse object that answered %r before: %r, a fresh "
+                                           "object answers %r" % (step + 1, method, rng_, seq[:step], got[:2], want[:2])})
+                        break
+    finally:
+        shutil.rmtree(d, ignore_errors=True)
+    return out, n
+
+
+def _plain_request(iface, path, method, range_, if_range, resp=None):
+    """(status, {lower-case header: value}, body) of a FileResponse(path) (a fresh one unless given) that stats the file itself"""
+    if resp is not None:
+        _orig_w, _orig_a = wsgi_responses.FileResponse, asgi_responses.FileResponse
+        class _Given:  # noqa
+            def __new__(cls, *_a, **_k):
+                return resp
+        try:
+            wsgi_responses.FileResponse = asgi_responses.FileResponse = _Given
+            return _plain_request(iface, path, method, range_, if_range)
+        finally:
+            wsgi_responses.FileResponse, asgi_responses.FileResponse = _orig_w, _orig_a
     if iface == "wsgi":
         environ = {"REQUEST_METHOD": method}
         if range_ is not None:
